@@ -91,6 +91,13 @@ def gen_history(rng, g):
             steps.append(rng.choice(steps))                                                          # the same request again
         else:
             steps.append(("build", dict(items), outs, drop))
+    # a value computed by a control-flow node, built alone, then after another value that is reached FIRST (the names generated for what its
+    # bodies close over shift), then alone again: what an earlier build compiled for a body must not survive into a later build
+    cf = [v for v in pool_out if any(isinstance(a, B.AttrGraph) for a in v._op.attrs.get_fields().values())]
+    if cf and rng.random() < 0.7:
+        y, z = rng.choice(cf), rng.choice(pool_out)
+        items = list(ins.items())
+        steps += [("build", dict(items), {"y": y}, False), ("build", dict(items), {"z": z, "y": y}, False), ("build", dict(items), {"y": y}, rng.random() < 0.5)]
     return ins, outs, steps
 
 
